@@ -16,6 +16,7 @@ import (
 	"sort"
 	"strings"
 	"syscall"
+	"time"
 
 	goconfig "github.com/TheCacophonyProject/go-config"
 	cptv "github.com/TheCacophonyProject/go-cptv"
@@ -114,6 +115,24 @@ func runFS(in *bufio.Scanner, w *bufio.Writer) {
 					register(r)
 				}
 				fmt.Fprintf(w, "< ret %s\n", vOk(err))
+			})
+		case "ss":
+			// two recorders started within the same millisecond (a test recording requested on the frame that
+			// triggers a motion recording): names have millisecond resolution and must still differ
+			a, b := recs[f[1]], recs[f[2]]
+			bg := cptvframe.NewFrame(cam)
+			vGuard(w, "start", func() {
+				for time.Now().Nanosecond()%1000000 > 60000 {
+				}
+				e1 := a.StartRecording(bg, 1234)
+				e2 := b.StartRecording(bg, 1234)
+				if e1 == nil {
+					register(a)
+				}
+				if e2 == nil {
+					register(b)
+				}
+				fmt.Fprintf(w, "< ret %s\n< ret %s\n", vOk(e1), vOk(e2))
 			})
 		case "h":
 			// a start whose header cannot be written (a header string longer than the format's 255 bytes):
@@ -261,6 +280,11 @@ func genFS(r *vRng, tier string, w *bufio.Writer) {
 					fmt.Fprintf(w, "h %s\n", x)
 					continue
 				}
+				if x == "m" && !open["t"] && r.chance(25) {
+					fmt.Fprintln(w, "ss m t")
+					open["m"], open["t"] = true, true
+					continue
+				}
 				fmt.Fprintf(w, "s %s\n", x)
 				open[x] = true
 				continue
@@ -283,5 +307,104 @@ func genFS(r *vRng, tier string, w *bufio.Writer) {
 			}
 		}
 		fmt.Fprintln(w, "z")
+	}
+}
+
+// ---------------------------------------------------------------------------------------
+// stream "names" (not under strace, so two starts fit into one millisecond): recording names have
+// millisecond resolution; two recorders started in the same millisecond — a test recording requested on
+// the frame that triggers a motion recording — must still get different files, both complete.
+
+func init() { verifStreams["names"] = verifStream{gen: genNames, run: runNames} }
+
+func runNames(in *bufio.Scanner, w *bufio.Writer) {
+	work := os.Getenv("VERIF_WORKDIR")
+	if work == "" {
+		work = os.TempDir()
+	}
+	cam := vCam{8, 6, 9}
+	caseNo := 0
+	var a, b *CPTVFileRecorder
+	var dir string
+	for in.Scan() {
+		line := in.Text()
+		fmt.Fprintln(w, ">", line)
+		f := strings.Fields(line)
+		if len(f) == 0 {
+			continue
+		}
+		switch f[0] {
+		case "case":
+			caseNo++
+			dir = filepath.Join(work, fmt.Sprintf("names_out_%d", caseNo))
+			os.RemoveAll(dir)
+			os.MkdirAll(dir, 0755)
+			conf := &Config{OutputDir: dir, DeviceName: "verif", DeviceID: 7, MinDiskSpace: 1,
+				Motion: goconfig.DefaultThermalMotion("lepton3")}
+			a = NewCPTVFileRecorder(conf, cam, "flir", "lepton3", 123, "1.2.3")
+			b = NewCPTVFileRecorder(conf, cam, "flir", "lepton3", 123, "1.2.3")
+		case "ss": // ss <frames for the first recorder> <frames for the second>
+			bg := cptvframe.NewFrame(cam)
+			vGuard(w, "pair", func() {
+				for time.Now().Nanosecond()%1000000 > 50000 {
+				}
+				t0 := time.Now()
+				e1 := a.StartRecording(bg, 1234)
+				t1 := time.Now()
+				e2 := b.StartRecording(bg, 1234)
+				// was the second name chosen while the clock still showed the first one's millisecond?
+				same := 0
+				if t0.UnixNano()/1000000 == t1.UnixNano()/1000000 {
+					same = 1
+				}
+				fmt.Fprintf(w, "< samems %d\n", same)
+				if e1 != nil || e2 != nil {
+					fmt.Fprintf(w, "< pair start-error\n")
+					return
+				}
+				n1, n2 := a.writer.Name(), b.writer.Name()
+				write := func(r *CPTVFileRecorder, n int, tag uint16) {
+					for i := 0; i < n; i++ {
+						fr := cptvframe.NewFrame(cam)
+						for y := range fr.Pix {
+							for x := range fr.Pix[y] {
+								fr.Pix[y][x] = tag + uint16(i)
+							}
+						}
+						r.WriteFrame(fr)
+					}
+				}
+				write(a, vAtoi(f[1]), 1000)
+				write(b, vAtoi(f[2]), 2000)
+				s2 := b.StopRecording()
+				s1 := a.StopRecording()
+				c1, _, d1 := vDecodeCount(recordingFinalName(n1))
+				c2, _, d2 := vDecodeCount(recordingFinalName(n2))
+				fmt.Fprintf(w, "< pair distinct=%v stop=%s,%s decode=%s,%s frames=%d,%d\n", n1 != n2, vOk(s1), vOk(s2), vOk(d1), vOk(d2), c1, c2)
+				ents, _ := os.ReadDir(dir)
+				fin, other := 0, 0
+				for _, e := range ents {
+					if strings.HasSuffix(e.Name(), ".cptv") {
+						fin++
+					} else {
+						other++
+					}
+				}
+				fmt.Fprintf(w, "< dir finished=%d other=%d\n", fin, other)
+			})
+		}
+	}
+}
+
+func genNames(r *vRng, tier string, w *bufio.Writer) {
+	cases := 6
+	if tier == "thorough" {
+		cases = 60
+	}
+	for id := 0; id < cases; id++ {
+		fmt.Fprintf(w, "case %d names\n", id)
+		for k := 0; k < 8; k++ {
+			fmt.Fprintf(w, "ss %d %d\n", r.pick(1, 3, 21), r.pick(1, 2, 21))
+		}
 	}
 }
